@@ -512,3 +512,89 @@ func (c *Ctx) noteDataWrite(s *Shadow, what string) {
 		}
 	}
 }
+
+// protectReachable arms the frame monitor on everything reachable from root.
+func (c *Ctx) protectReachable(name string, root Value) {
+	if c.watchSlots == nil {
+		c.watchSlots = map[*Value]string{}
+		c.watchMaps = map[*MapV]string{}
+		c.watchArrs = map[*idArr]string{}
+	}
+	seenSlot := map[*Value]bool{}
+	var rec func(v Value, depth int)
+	addSlot := func(p *Value, depth int) {
+		if p == nil || seenSlot[p] {
+			return
+		}
+		seenSlot[p] = true
+		c.watchSlots[p] = name
+		rec(*p, depth+1)
+	}
+	rec = func(v Value, depth int) {
+		if depth > 40 {
+			return
+		}
+		switch x := v.(type) {
+		case *Value:
+			addSlot(x, depth)
+		case StructV:
+			for i := range x {
+				addSlot(&x[i], depth)
+			}
+		case ArrayV:
+			for i := range x {
+				addSlot(&x[i], depth)
+			}
+		case ScalarArr:
+			c.watchArrs[x.A] = name
+		case SliceV:
+			switch b := x.B.(type) {
+			case *boxArr:
+				for i := range b.a {
+					addSlot(&b.a[i], depth)
+				}
+			case *idArr:
+				c.watchArrs[b] = name
+			}
+		case *MapV:
+			if x == nil {
+				return
+			}
+			if _, ok := c.watchMaps[x]; ok {
+				return
+			}
+			c.watchMaps[x] = name
+			for _, k := range x.Order {
+				e := x.M[k]
+				rec(e.K, depth+1)
+				rec(e.V, depth+1)
+			}
+		case IfaceV:
+			rec(x.V, depth+1)
+		case *Shadow:
+			if x != nil {
+				c.protected[x] = name
+			}
+		case *Closure:
+			if x != nil {
+				for _, e := range x.Env {
+					rec(e, depth+1)
+				}
+			}
+		}
+	}
+	rec(root, 0)
+}
+
+// protectGlobals arms the monitor on the package-level state of the gonnx packages.
+func (c *Ctx) protectGlobals() {
+	for g, slot := range c.globals {
+		if g.Pkg == nil {
+			continue
+		}
+		p := g.Pkg.Pkg.Path()
+		if len(p) >= len(gonnxPath) && p[:len(gonnxPath)] == gonnxPath && p != zzPath {
+			c.protectReachable("package variable "+g.Pkg.Pkg.Name()+"."+g.Name(), slot)
+		}
+	}
+}
